@@ -9,12 +9,81 @@ Require Import Verif.Model.Base Verif.Model.Decision Verif.Model.Level Verif.Mod
   Verif.Model.Writers Verif.Model.Deliver.
 Require Import Verif.Gen.Decisions.
 Require Import Verif.Proofs.DeliverP.
+Require Import Verif.Model.GoSem Verif.Model.GenRef.
+Require Verif.Gen.Delivery.
+Require Import Verif.Proofs.GenDeliverP.
 
 (* tie: the condition of the nested diagnostic in Entry.printOut, translated from the source
    on every run, is the guard the theorems below are proved about *)
 Theorem C13_gen_should_warn : forall err lvl, Decisions.should_warn err lvl = should_warn_ref err lvl.
 Proof. intros err lvl. reflexivity. Qed.
 Print Assumptions C13_gen_should_warn.
+
+(* ---- the delivery code against the delivery model (Gen/Delivery.v is translated from
+   LWs.WriteLeveled, LWs.Write and Entry.printOut on every run).  What the outside world does is
+   quantified: [wres k] = (count, failed) returned by the k-th Write attempt of the history, [isls] =
+   which writers are LevelSettable; the type assertions of the code are read on the member model
+   (GenRef.asm_ls ...: a *logwr cell is not LevelSettable itself, the writer inside may be).
+   The fault oracle of the model is [fun i => snd (wres i)]. ---- *)
+
+(* LWs.WriteLeveled continues past a failing member: EVERY member gets exactly one Write, in order
+   (told the level right before it if it asks for that: Writers.deliver, C03); the byte count adds
+   up the successful attempts only; the joined error consists of exactly the failed attempts, in
+   order; the clock, the error flag and the attempted writers are those of the model's write_all *)
+Theorem C13_gen_write_leveled : forall isls wres ms lvl p tr k kind,
+  let faults := fun i => snd (wres i) in
+  Delivery.write_leveled (asm_ls isls) asm_logwr cell_writer (inner_ls isls) wres ms lvl p tr k =
+    (counted_bytes wres k (length ms), failed_attempts wres k (length ms), tr ++ deliver isls ms lvl,
+     snd (fst (write_all faults kind ms k)))
+  /\ negb (err_is_nil (failed_attempts wres k (length ms))) = snd (write_all faults kind ms k)
+  /\ writes_of (deliver isls ms lvl) = map a_w (fst (fst (write_all faults kind ms k))).
+Proof. exact gen_write_leveled. Qed.
+Print Assumptions C13_gen_write_leveled.
+
+(* LWs.Write: the same without the level notification *)
+Theorem C13_gen_write : forall wres ms p tr k kind,
+  let faults := fun i => snd (wres i) in
+  Delivery.write_plain wres ms p tr k =
+    (counted_bytes wres k (length ms), failed_attempts wres k (length ms),
+     tr ++ map (fun m => EvWrite (member_id m)) ms, snd (fst (write_all faults kind ms k)))
+  /\ negb (err_is_nil (failed_attempts wres k (length ms))) = snd (write_all faults kind ms k)
+  /\ map member_id ms = map a_w (fst (fst (write_all faults kind ms k))).
+Proof. exact gen_write_plain. Qed.
+Print Assumptions C13_gen_write.
+
+(* Entry.printOut on the destinations findWriter selects for the configuration [c] is one unfolding
+   of the model's cycle: it returns, or its LAST act is the nested s.Warn (then the model of Warn -
+   gate, logContext's tail, printOut at Warn - continues), and that happens exactly when some
+   attempt failed and the level is not Warn *)
+Theorem C13_gen_print_out : forall isls wres c lvl msg k kind fuel,
+  let faults := fun i => snd (wres i) in
+  let atts := fun tr' => stamp faults kind (writes_of tr') k in
+  print_out_code (S fuel) c faults lvl kind k =
+  match Delivery.print_out (asm_ls isls) asm_logwr cell_writer (inner_ls isls) lw_as_list (lw_as_ls isls)
+          (fun l => LWlist (dests c l)) wres lvl msg [] k with
+  | PoReturn tr' k' => Normal (atts tr') k'
+  | PoWarn tr' k' =>
+      if admitted c lv_warn
+      then seq_after (atts tr') (tail c lv_warn (print_out_code fuel c faults lv_warn Diag k'))
+      else Normal (atts tr') k'
+  | PoOther _ _ => OutOfFuel
+  end
+  /\ (forall tr' k', Delivery.print_out (asm_ls isls) asm_logwr cell_writer (inner_ls isls) lw_as_list (lw_as_ls isls)
+          (fun l => LWlist (dests c l)) wres lvl msg [] k <> PoOther tr' k').
+Proof. exact gen_print_out. Qed.
+Print Assumptions C13_gen_print_out.
+
+(* the branches of printOut that dualWriter.Get never produces: nothing happens for a nil writer; a
+   single writer that is not a list gets one Write (and SetLevel first if it asks for it) *)
+Theorem C13_gen_print_out_other : forall isls wres lvl msg tr k m,
+  Delivery.print_out (asm_ls isls) asm_logwr cell_writer (inner_ls isls) lw_as_list (lw_as_ls isls)
+    (fun _ => LWnil) wres lvl msg tr k = PoReturn tr k
+  /\ Delivery.print_out (asm_ls isls) asm_logwr cell_writer (inner_ls isls) lw_as_list (lw_as_ls isls)
+       (fun _ => LWone m) wres lvl msg tr k =
+     (if snd (wres k) && negb (lvl =? 3) then PoWarn else PoReturn)
+       (tr ++ (match asm_ls isls m with Some x => [EvSet x lvl] | None => [] end) ++ [EvWrite (member_id m)]) (S k).
+Proof. exact gen_print_out_other. Qed.
+Print Assumptions C13_gen_print_out_other.
 
 (* termination of the nested call: fuel for the call itself and for ONE nested diagnostic is
    always enough, for printOut, for a public call and for any history of calls *)
